@@ -534,6 +534,25 @@ static void run_case(char **tok, int nt) {
 #include <sys/wait.h>
 #undef printf
 static char **cases; static size_t ncases;
+/* Non-termination budget: every watchdog death costs its 150 ms of CPU time, and a function that loops for ever on a whole
+ * class of inputs dies on thousands of cases.  The check ends every case line with "@<input class>" (the shape its
+ * non-termination finding would be keyed with) and sets C12_TMO_FREE / C12_TMO_BUDGET.  The first C12_TMO_FREE watchdog
+ * deaths of a run change nothing (the known findings of the unchanged tree stay far below it in the quick tier); from then
+ * on the cases of an (op, class) whose watchdog has fired C12_TMO_BUDGET times or more in this run - each death reported as
+ * a CRASH - are answered "<op> NOTRUN" without calling the function: the run ends in bounded time, and every other class
+ * of the same function is still run.  Without C12_TMO_BUDGET (or 0) nothing is ever skipped. */
+static int tmo_budget = 0, tmo_free = 0, tmo_total = 0;
+#define TMO_BUDGET tmo_budget
+static struct { char key[96]; int n; } tmo_tbl[256];
+static int *tmo_of(const char *c) { /* counter of "<op>@<class>" of the case line c */
+	char key[96]; size_t k = 0; int i; const char *at = strrchr(c, '@');
+	while (c[k] && c[k] != ' ' && k < 30) { key[k] = c[k]; k++; }
+	key[k] = 0;
+	if (at && at > c && at[-1] == ' ') snprintf(key + k, sizeof(key) - k, "%s", at);
+	for (i = 0; i < 255 && tmo_tbl[i].key[0]; i++) if (!strcmp(tmo_tbl[i].key, key)) return &tmo_tbl[i].n;
+	if (!tmo_tbl[i].key[0]) strcpy(tmo_tbl[i].key, key);      /* table full: the last slot is shared */
+	return &tmo_tbl[i].n;
+}
 static void worker(size_t from, int fd) {
 	static char copy[1 << 17]; char *tok[64];
 	if (fd > 2) { dup2(fd, 1); dup2(fd, 2); close(fd); }
@@ -541,20 +560,25 @@ static void worker(size_t from, int fd) {
 		vh_set_tag(cases[i]);
 		strncpy(copy, cases[i], sizeof(copy) - 1);
 		int nt = 0; for (char *t = strtok(copy, " "); t && nt < 64; t = strtok(NULL, " ")) tok[nt++] = t;
+		if (nt > 2 && tok[nt - 1][0] == '@') nt--;     /* "@<input class>": only the non-termination budget looks at it */
 		anslen = 0;
-		if (nt < 2) ans_add("%s rc=-1 n=-1 bad=1\n", nt ? tok[0] : "bad"); else run_case(tok, nt);
+		if (nt < 2) ans_add("%s rc=-1 n=-1 bad=1\n", nt ? tok[0] : "bad");
+		else if (TMO_BUDGET > 0 && tmo_total >= tmo_free && *tmo_of(cases[i]) >= TMO_BUDGET) ans_add("%s NOTRUN\n", tok[0]);
+		else run_case(tok, nt);
 		ans_flush();
 	}
 	_exit(0);
 }
-static int is_answer(const char *ln, const char *c) { /* "<op> rc=" with the op of the case */
+static int is_answer(const char *ln, const char *c) { /* "<op> rc=" (or "<op> NOTRUN") with the op of the case */
 	size_t k = 0; while (c[k] && c[k] != ' ') k++;
-	return strncmp(ln, c, k) == 0 && strncmp(ln + k, " rc=", 4) == 0;
+	return strncmp(ln, c, k) == 0 && (strncmp(ln + k, " rc=", 4) == 0 || strcmp(ln + k, " NOTRUN\n") == 0);
 }
 int main(int argc, char **argv) {
 	static char line[1 << 17];
 	size_t cap = 0;
 	c12_install();
+	if (getenv("C12_TMO_BUDGET")) tmo_budget = atoi(getenv("C12_TMO_BUDGET"));
+	if (getenv("C12_TMO_FREE")) tmo_free = atoi(getenv("C12_TMO_FREE"));
 	while (fgets(line, sizeof(line), stdin)) {
 		size_t L = strlen(line); while (L && (line[L-1] == '\n' || line[L-1] == '\r')) line[--L] = 0;
 		if (ncases == cap) { cap = cap ? cap * 2 : 1024; cases = realloc(cases, cap * sizeof(char*)); }
@@ -583,6 +607,7 @@ int main(int argc, char **argv) {
 		if (i < ncases) { /* worker died on case i */
 			const char *c = cases[i]; size_t k = 0; while (c[k] && c[k] != ' ') k++;
 			fprintf(stdout, "%.*s CRASH status=%d raw=%s\n", (int)k, c, status, raw);
+			if (strstr(raw, "FAULT sig=14 ") || strstr(raw, "FAULT sig=26 ")) { ++*tmo_of(c); ++tmo_total; } /* SIGALRM / SIGVTALRM: the watchdog */
 			i++;
 		}
 		fflush(stdout);
